@@ -551,6 +551,34 @@ pub fn eval_c18(sc: &Scenario, h: &History, signed: &Signeds, out: &mut Outcome)
                 }
             }
         }
+        // ... and so does every reference input that the (last) witness of a spent script input names as the place of its datum
+        {
+            let mut last: BTreeMap<usize, (usize, &crate::scn::Wit)> = BTreeMap::new();
+            for (i, op) in sc.ops.iter().enumerate() {
+                if i >= b.op || !h.results[i].is_ok() {
+                    continue;
+                }
+                match op {
+                    Op::InScript { utxo, wit, .. } => {
+                        last.insert(*utxo, (i, wit));
+                    }
+                    Op::InScriptThenRegular { utxo, .. } | Op::InUtxo(utxo) | Op::InLegacy(utxo) | Op::InDirect(utxo) => {
+                        last.remove(utxo);
+                    }
+                    _ => {}
+                }
+            }
+            for (utxo, (i, w)) in last {
+                if let crate::scn::DatumUse::Ref(du) = &w.datum {
+                    if utxo < sc.world.utxos.len() && *du < sc.world.utxos.len() && ins.contains(&sc.world.outpoint(utxo)) {
+                        out.count("c18.declared_datum_refs_checked", 1);
+                        if !refs.contains(&sc.world.outpoint(*du)) {
+                            out.violate("C18.ref_declared", "declared_datum_reference_input_missing_from_body", format!("op {}: the witness of input world#{} (op {}) names world#{} as the place of its datum, but that outpoint is not among the body's reference inputs", b.op, utxo, i, du));
+                        }
+                    }
+                }
+            }
+        }
         // 2. datums: a Plutus-locked input whose UTxO carries a datum hash has its datum in the witness set
         let mut datum_hashes: Vec<Vec<u8>> = vec![];
         if let Some(d) = v.ws().get(4) {
